@@ -21,7 +21,7 @@ PkOK(e) == Len(e.pk) = 65 /\ e.pk[1] = 4 /\ C!OnCurve(Pk(e))
 Stay == tst' = tst
 
 \* ---------------- C04: verification ----------------
-VerClass(e) == IF Len(e.sig) < 64 THEN "len<64" ELSE IF Len(e.sig) > 64 THEN "len>64" ELSE IF e.fault = "none" THEN "untouched" ELSE "tampered64"
+VerClass(e) == IF Len(e.sig) < 64 THEN "len<64" ELSE IF Len(e.sig) > 64 THEN "len>64" ELSE IF e.fault = "none" THEN "untouched" ELSE IF e.fault = "altered-id-edge" THEN "altered-id-edge" ELSE "tampered64"
 VerAllowed(e, m) == /\ e.outcome \in {"ok", "err"}
                     /\ (Len(e.sig) # 64 => e.outcome = "err")
                     /\ (e.outcome = "ok" => Verify(Pk(e), e.uid, m, e.sig))
